@@ -173,28 +173,44 @@ theorem unitFacts_of_checkAnns (consts : List CKind) (base need : Nat) (l : List
 
 /-! ### bracket structure -/
 
-theorem bracketAt_of_linOk (lo : Nat) (l : List Ann) (s t : Nat) (hs : pcsFrom lo l = true)
-    (h : linOk s t l = true) (b : Ann) (hb : b ∈ l) (d : Depth) (hd : b.d = some d) :
-    bracketAt s t l b.pc = some (d.seq, d.str) := by
-  induction l generalizing lo s t with
+/-- in the static depths that `linLex` computes, a reachable instruction has its inferred depths -/
+theorem lookup_of_linLex (lo : Nat) (l : List Ann) (s t : Nat) (run : List (Nat × Nat)) (lex : List (Nat × Nat))
+    (hs : pcsFrom lo l = true) (h : linLex s t run l = some lex) (b : Ann) (hb : b ∈ l) (d : Depth)
+    (hd : b.d = some d) :
+    ((l.zip lex).find? (fun x => x.1.pc == b.pc)).map (·.2) = some (d.seq, d.str) := by
+  induction l generalizing lo s t run lex with
   | nil => simp at hb
   | cons a rest ih =>
     simp only [pcsFrom, Bool.and_eq_true, decide_eq_true_eq] at hs
-    simp only [linOk, Bool.and_eq_true] at h
-    simp at hb
-    rcases hb with rfl | hb
-    · have h1 := h.1
-      simp only [hd, Bool.and_eq_true, decide_eq_true_eq] at h1
-      simp [bracketAt, h1.1, h1.2]
-    · have hge := pcsFrom_ge _ _ hs.2 b hb
-      have hne : ¬ a.pc = b.pc := by omega
-      simp only [bracketAt, if_neg hne]
+    cases hc : depthIs a s t with
+    | false => simp [linLex, hc] at h
+    | true =>
       cases hl : linStep a.ins.op s t with
-      | none => simp [hl] at h
+      | none => simp [linLex, hc, hl] at h
       | some st =>
         obtain ⟨s', t'⟩ := st
-        simp only [hl] at h ⊢
-        exact ih _ _ _ hs.2 h.2 hb
+        simp only [linLex, hc, hl, Option.map_eq_some_iff] at h
+        obtain ⟨lex', hlex', rfl⟩ := h
+        simp at hb
+        rcases hb with rfl | hb
+        · simp only [depthIs, hd, Bool.and_eq_true, decide_eq_true_eq] at hc
+          simp [List.zip_cons_cons, List.find?_cons, hc.1, hc.2]
+        · have hge := pcsFrom_ge _ _ hs.2 b hb
+          have hne : (a.pc == b.pc) = false := by
+            simp; omega
+          simp only [List.zip_cons_cons, List.find?_cons, hne]
+          split at hlex'
+          · obtain ⟨st, _, hst⟩ := List.exists_of_findSome?_eq_some hlex'
+            exact ih _ _ _ _ _ hs.2 hst hb
+          · exact ih _ _ _ _ _ hs.2 hlex' hb
+
+theorem bracketAt_of_linOk (lo : Nat) (l : List Ann) (s t : Nat) (hs : pcsFrom lo l = true)
+    (h : linOk s t l = true) (b : Ann) (hb : b ∈ l) (d : Depth) (hd : b.d = some d) :
+    bracketAt s t l b.pc = some (d.seq, d.str) := by
+  simp only [linOk, Option.isSome_iff_exists] at h
+  obtain ⟨lex, hlex⟩ := h
+  simp only [bracketAt, hlex]
+  exact lookup_of_linLex lo l s t [] lex hs hlex b hb d hd
 
 /-! ### the invariant of the abstract VM -/
 
